@@ -9,6 +9,8 @@ package c12
 import (
 	"encoding/json"
 	"fmt"
+	"os"
+	"runtime/pprof"
 	"sort"
 	"strings"
 	"time"
@@ -23,14 +25,18 @@ type bounds struct {
 	depth      int    // max blocks per sequence
 	mMax       int    // max momentums per sequence
 	leafM      bool
-	fullPowCfg []string
+	richFrom   int
+	plusOne    bool
+	postMDepth int
+	heavy      map[string][]uint64 // per configuration: plasma amounts bought by the heavy PoW options at the root state
 }
 
 func boundsOf(thorough bool) bounds {
 	if thorough {
-		return bounds{nonces: 4096, searchMax: 1<<25 + 1, depth: 4, mMax: 1, leafM: false, fullPowCfg: []string{"F0", "F1", "F10"}}
+		return bounds{nonces: 4096, searchMax: 1<<25 + 1, depth: 4, mMax: 1, leafM: true, richFrom: 2, plusOne: false, postMDepth: 2,
+			heavy: map[string][]uint64{"F0": {512, refBasePlasma}, "F1": {512, refBasePlasma}, "F10": {512, refBasePlasma}, "F5000": {512}}}
 	}
-	return bounds{nonces: 256, searchMax: 1 << 20, depth: 3, mMax: 1, leafM: false, fullPowCfg: []string{"F0"}}
+	return bounds{nonces: 256, searchMax: 1 << 20, depth: 3, mMax: 1, leafM: false, richFrom: 2, plusOne: true, postMDepth: 1, heavy: map[string][]uint64{"F0": {512}, "F10": {512}}}
 }
 
 const convChunk = 1 << 22
@@ -40,6 +46,11 @@ func convUpper() uint64 { return refMaxPowPlasma*refDiffPerPlasma + 1<<20 }
 func run(c *xs.Ctx, r *xs.Result) {
 	vnode.Quiet()
 	ownGlobals()
+	if p := os.Getenv("C12_PROF"); p != "" && c.Shard == 3 {
+		f, _ := os.Create(p)
+		pprof.StartCPUProfile(f)
+		time.AfterFunc(30*time.Second, func() { pprof.StopCPUProfile(); f.Close() })
+	}
 	b := boundsOf(c.Thorough())
 	if c.Replay != nil {
 		replay(c, r, b)
@@ -52,12 +63,15 @@ func run(c *xs.Ctx, r *xs.Result) {
 		return mine
 	}
 
-	// ---- part (b) first: its items are the long ones
-	runAcct(c, r, b, next)
-
 	// ---- part (a)
+	t0 := time.Now()
 	ds := powDifficulties()
 	subs := powSubjects(b.nonces)
+	if next() {
+		convPoints(r, ds)
+		r.Sample(map[string]interface{}{"part": "pow", "difficulties": len(ds), "first": ds[:4], "last": ds[len(ds)-4:], "nonces_per_difficulty_and_subject": b.nonces,
+			"subjects": []string{fmt.Sprintf("%v/%v", subs[0].Addr, subs[0].Prev), fmt.Sprintf("%v/%v", subs[1].Addr, subs[1].Prev)}})
+	}
 	// heavy (searched) difficulties first so that they do not all end up at the tail of one shard
 	order := make([]int, len(ds))
 	for i := range order {
@@ -74,11 +88,13 @@ func run(c *xs.Ctx, r *xs.Result) {
 		}
 		powOne(r, subs, ds[i], b.searchMax)
 	}
-	if next() {
-		convPoints(r, ds)
-		r.Sample(map[string]interface{}{"part": "pow", "difficulties": len(ds), "first": ds[:4], "last": ds[len(ds)-4:], "nonces_per_difficulty_and_subject": b.nonces,
-			"subjects": []string{fmt.Sprintf("%v/%v", subs[0].Addr, subs[0].Prev), fmt.Sprintf("%v/%v", subs[1].Addr, subs[1].Prev)}})
-	}
+	r.Count("ms_pow", time.Since(t0).Milliseconds())
+	// ---- part (b)
+	t0 = time.Now()
+	runAcct(c, r, b, next)
+	r.Count("ms_acct", time.Since(t0).Milliseconds())
+	t0 = time.Now()
+	defer func() { r.Count("ms_conv", time.Since(t0).Milliseconds()) }()
 	for lo := uint64(0); lo < convUpper(); lo += convChunk {
 		if !next() {
 			continue
@@ -103,21 +119,21 @@ func runAcct(c *xs.Ctx, r *xs.Result, b bounds, next func() bool) {
 		}
 	}
 	cfgs := acctCfgs(c.Thorough())
-	// full proof-of-work items (a 31.5M-hash search each) go first
+	// heavy proof-of-work items first (the largest is a 31.5M-hash search)
 	for ci, cfg := range cfgs {
-		want := false
-		for _, n := range b.fullPowCfg {
-			want = want || n == cfg.Name
+		for _, w := range b.heavy[cfg.Name] {
+			if !next() {
+				continue
+			}
+			x := &explorer{c: c, r: r, cfgIdx: ci, cfg: cfg, kinds: kindIdx, depth: b.depth, mMax: 0, seen: map[string]bool{}, seenM: map[string]bool{}}
+			e := newEnv(c, cfg)
+			t0 := time.Now()
+			x.evaluate(e, e.rootState(), nil, 1, fullPow, w, false)
+			if d := time.Since(t0); d > 5*time.Second {
+				r.Note("heavy PoW item %s W=%d: %.1fs", cfg.Name, w, d.Seconds())
+			}
+			e.n.Destroy()
 		}
-		if !want || !next() {
-			continue
-		}
-		x := &explorer{c: c, r: r, cfgIdx: ci, cfg: cfg, kinds: kindIdx, depth: b.depth, mMax: 0, seen: map[string]bool{}, seenM: map[string]bool{}}
-		e := newEnv(c, cfg)
-		t0 := time.Now()
-		x.evaluate(e, e.rootState(), nil, 1, fullPow, true)
-		r.Note("full PoW item %s: %.1fs", cfg.Name, time.Since(t0).Seconds())
-		e.n.Destroy()
 	}
 	for ci, cfg := range cfgs {
 		if c.Expired() {
@@ -125,16 +141,18 @@ func runAcct(c *xs.Ctx, r *xs.Result, b bounds, next func() bool) {
 			r.Note("deadline reached before configuration %s", cfg.Name)
 			return
 		}
-		x := &explorer{c: c, r: r, cfgIdx: ci, cfg: cfg, kinds: kindIdx, depth: b.depth, mMax: b.mMax, leafMomentum: b.leafM, seen: map[string]bool{}, seenM: map[string]bool{}}
+		x := &explorer{c: c, r: r, cfgIdx: ci, cfg: cfg, kinds: kindIdx, depth: b.depth, mMax: b.mMax, leafMomentum: b.leafM, richFrom: b.richFrom, extPlusOne: b.plusOne, postMDepth: b.postMDepth, seen: map[string]bool{}, seenM: map[string]bool{}}
 		e := newEnv(c, cfg)
 		st := e.rootState()
 		// every shard evaluates the root (cheap) to learn the list of root successors; only its owner records it
 		owner := next()
 		if !owner {
 			x.r = xs.NewResult()
+			x.noInsert = true
 		}
-		reps, nn := x.evaluate(e, st, nil, b.depth, normalPow, false)
+		reps, nn := x.evaluate(e, st, nil, b.depth, normalPow, 0, !owner)
 		x.r = r
+		x.noInsert = false
 		mine := make([]bool, len(reps))
 		any := false
 		for i := range reps {
@@ -198,11 +216,11 @@ func replay(c *xs.Ctx, r *xs.Result, b bounds) {
 		for i := range kinds {
 			kindIdx = append(kindIdx, i)
 		}
-		x := &explorer{c: c, r: r, cfg: rep.Cfg, kinds: kindIdx, depth: b.depth, seen: map[string]bool{}, seenM: map[string]bool{}}
+		x := &explorer{c: c, r: r, cfg: rep.Cfg, kinds: kindIdx, depth: b.depth, richFrom: 0, seen: map[string]bool{}, seenM: map[string]bool{}}
 		e, st := x.replayPath(rep.Path, true)
 		if rep.Cand != nil {
-			nn := e.nonces(st, rep.Full)
-			x.evalOne(e, st, rep.Path, *rep.Cand, nn, rep.Full)
+			nn := e.nonces(st, rep.Heavy)
+			x.evalOne(e, st, rep.Path, *rep.Cand, nn, rep.Heavy)
 		}
 		e.n.Destroy()
 	default:
@@ -232,7 +250,7 @@ func init() {
 		},
 		Assumptions: []string{
 			"mock genesis (chain id 100, no sporks active: original embedded method table); test account = mock User6 (no fusion at genesis), fusions made by User1 through the plasma contract and confirmed by the mock pillars",
-			"constants.FuseMinAmount is lowered to 1 QSR in the worker processes so that a fusion smaller than one base block (2100 plasma) exists; all other plasma constants are the repository's and are compared with an independently written table",
+			"constants.FuseMinAmount is lowered to 1 QSR in the worker processes so that a fusion smaller than one base block (2100 plasma) exists; all other plasma constants are the repository's; the reference uses its own independently written table of the same numbers",
 			"the hash primitive (sha3-256 from golang.org/x/crypto) and ed25519 are trusted; the reference is independent in arithmetic only",
 			"blocks are hand-built, hashed and signed by the check and decided by vm.Supervisor.ApplyBlock followed by chain.AddAccountBlockTransaction (what protocol.ChainBridge.AddAccountBlocks does); siblings explored at the same height are replaced with the pool's ForceAddAccountBlockTransaction",
 			"every block acknowledges the frontier momentum; rejections are not required to be justified (only counted per reason)",
@@ -272,13 +290,19 @@ func init() {
 				"acct_accepted", "acct_rejected", "acct_accepted_needing_pow", "acct_momentums", "acct_counter_checks",
 				"acct_rejected:not enough plasma on account", "acct_rejected:plasma limit for account-block reached",
 				"acct_rejected:not enough TotalPlasma provided for account-block (PoW + Fused)", "acct_rejected:account-block nonce/difficulty is invalid",
-				"acct_accepted:receive", "acct_accepted:send/16384", "acct_accepted:call/plasma.Fuse", "acct_accepted:call/sentinel.Revoke"} {
+				"acct_accepted:receive", "acct_accepted:send/16384", "acct_accepted:call/pillar.Delegate", "acct_accepted:call/sentinel.Revoke"} {
 				need(n)
 			}
 			if len(m.Sets["acct_states"]) < 10 {
 				missing = append(missing, "acct_states<10")
 			}
 			if len(missing) > 0 {
+				var all []string
+				for k, v := range cnt {
+					all = append(all, fmt.Sprintf("%s=%d", k, v))
+				}
+				sort.Strings(all)
+				fmt.Fprintln(os.Stderr, strings.Join(all, "\n"))
 				panic(fmt.Sprintf("C12 vacuity guard failed, nothing observed for: %v", missing))
 			}
 		},
